@@ -83,9 +83,13 @@ Both == {"pass", "notpass"}
 \* meant; the SI unit is assumed here, which is unambiguous except for the kilogram (SymPy's unit system counts
 \* mass in grams): with a mass exponent the value comparison is left open
 UnitOfBareNumberOpen(b, dimarg) == b.k = "num" /\ dimarg.given /\ dimarg.d["M"] # RZero
+\* a dimension supplied although the right-hand side is a quantity of another dimension: the operands'
+\* dimensions decide (inequivalent operands never pass, whatever is supplied); if the operands agree with
+\* each other but not with the supplied dimension the statement does not say what happens
+SuppliedDimensionConflicts(b, dimarg) == b.k = "qty" /\ dimarg.given /\ ~Equiv(dimarg.d, b.d)
 CompAllowed(a, b, rel, an, dimarg) ==
   IF ~DimsOK(a, b, dimarg) /\ ~IsZero(a) /\ ~IsZero(b) THEN {"notpass"}
-  ELSE IF UnitOfBareNumberOpen(b, dimarg) THEN Both
+  ELSE IF UnitOfBareNumberOpen(b, dimarg) \/ SuppliedDimensionConflicts(b, dimarg) THEN Both
   ELSE IF OnBoundary(a, b, rel, an) THEN Both
   ELSE IF ValuesMustFail(a, b, rel, an) THEN {"notpass"}
   ELSE IF ~DimsOK(a, b, dimarg) THEN Both              \* a zero operand of another dimension
@@ -144,15 +148,16 @@ InitComplex ==
 DimKinds == {<<"qty", Len1>>, <<"qty", Tim1>>, <<"qty", BaseDim("M")>>, <<"qty", DimOf["lenang"]>>, <<"qty", D1>>, <<"qty", DimOf["ang"]>>, <<"num", D1>>}
 InitDimension ==
   \E a \in DimKinds, b \in DimKinds, da \in {NoDim, Given(Len1), Given(Tim1), Given(BaseDim("M"))}, l \in {0, 1000000}, r \in {0, 1000000, 1000500, 1100000} :
-    /\ (da.given => b[1] = "num")                            \* a dimension is supplied for a bare-number rhs only
+    \* (the dimension is also supplied when both operands are quantities: it must not replace their comparison)
     /\ case = Cmp("dimension", <<Op(a[1], l, 0, a[2], "base")>>, <<Op(b[1], r, 0, b[2], "base")>>, "default", "none", da)
 
 \* vectors: components equal / within / outside the tolerance, lengths 0..MaxVec on both sides
 VecComp == {1000000, 1000500, 1100000}
 Vecs(d) == UNION {{[j \in 1..n |-> Op("qty", f[j], 0, d, "base")] : f \in [1..n -> VecComp]} : n \in 0..MaxVec}
 InitVector ==
-  \E l \in Vecs(Len1), r \in Vecs(Len1) \cup {v \in Vecs(Tim1) : Len(v) = 2} :
-    case = Cmp("vector", l, r, "default", "none", NoDim)
+  \E l \in Vecs(Len1), r \in Vecs(Len1) \cup {v \in Vecs(Tim1) : Len(v) = 2}, da \in {NoDim, Given(Len1), Given(Tim1)} :
+    /\ (da.given => Len(l) <= 2 /\ Len(r) <= 2)
+    /\ case = Cmp("vector", l, r, "default", "none", da)
 
 -----------------------------------------------------------------------------
 (* The comparison machine.                                                   *)
@@ -210,7 +215,7 @@ Monotone == AtStart => \A j \in Comps :
 SharpForReals == AtStart /\ case.an < 0 => \A j \in Comps :
                    LET a == case.l[j]  b == case.r[j] IN
                      (a.im = 0 /\ b.im = 0 /\ DimsOK(a, b, case.dimarg) /\ ~OnBoundary(a, b, case.rel, case.an)
-                        /\ ~UnitOfBareNumberOpen(b, case.dimarg))
+                        /\ ~UnitOfBareNumberOpen(b, case.dimarg) /\ ~SuppliedDimensionConflicts(b, case.dimarg))
                         => Cardinality(CA(a, b)) = 1
 \* the machine and the closed form agree; a pass needs equal lengths and every component passing
 FinalIsAllowed == Terminal => verdict \in Allowed(case)
